@@ -70,7 +70,8 @@ DevModAnyRes == [NoDev EXCEPT !.modAnyRes = TRUE]
 \* what the tree currently does: the open findings switched on (known_findings.d)
 DevVersionInKey == [NoDev EXCEPT !.versionInKey = TRUE]
 DevF32 == [NoDev EXCEPT !.fragIdOrder = TRUE]
-DevAsIs == [NoDev EXCEPT !.firstFragUnshifted = TRUE, !.dedupKey = TRUE]       \* F14, F30 (F31, F32 repaired: a812f9b, 8d129a5)
+\* what the tree currently does = NoDev plus the open findings; none is open (F14 fc4ff7c, F30 cca8623, F31 a812f9b, F32 8d129a5 repaired)
+DevAsIs == NoDev
 
 ProteinNames == {"GLY", "ALA", "CYS", "VAL", "LEU", "ILE", "MET", "PRO", "HYP", "ASN", "GLN", "ASP", "ASP0", "GLU", "GLU0",
                  "THR", "SER", "LYS", "LYS0", "ARG", "ARG0", "HIS", "HISH", "PHE", "TYR", "TRP"}
